@@ -274,8 +274,27 @@ func c09Pair[V univers.Version[V], VR univers.VersionRange[V]](e univers.Ecosyst
 	vv.Reached()
 	vv.Assume(pepValid(a))
 	vv.Assume(pepValid(b))
-	vv.Assume(!vv.Known("KF-C09-pypi-local-label-ignored", orb(hasPlus(a), hasPlus(b))))
+	vv.Assume(!vv.Known("KF-C09-pypi-local-label-ignored", c09Scope(a, b)))
 	vv.Assert(sign(va.Compare(vb)) == pepCompare(a, b), "C09: order differs from PEP 440 (packaging.version)")
+}
+
+// c09Scope: the library ignores local version labels, i.e. it orders a and b as PEP 440 orders their
+// public parts. The finding covers exactly the pairs where that differs from the PEP 440 order of
+// the full versions (equal public versions whose local labels differ). (inputs only)
+func c09Scope(a, b string) bool {
+	if !hasPlus(a) && !hasPlus(b) {
+		return false
+	}
+	return pepCompare(a, b) != pepCompare(stripLocal(a), stripLocal(b))
+}
+
+func stripLocal(s string) string {
+	for i := 0; i < len(s); i++ {
+		if s[i] == '+' {
+			return s[:i]
+		}
+	}
+	return s
 }
 
 func hasPlus(s string) bool {
